@@ -15,7 +15,7 @@ prop("C01", "PBT (Hypothesis byte-tape generators) against an independent refere
      "Exploration: every DSL-reachable leaf shape (kind x pre-processor x callable) is enumerated; arguments of every JSON-like type and list/mapping documents are generated; filter result, partition views and all entry points are compared with an independent reference evaluator in which any undefined comparison means 'not satisfied'. Any escaping exception is a violation.",
      TRUST, "DESIGN.md 3/C01")
 
-prop("C02", "PBT: generated call histories (model-based, program-as-data) + one-shot deep trees against reference Boolean algebra; object-graph fingerprints for operand immutability",
+prop("C02", "PBT: generated call histories (model-based: program-as-data and a Hypothesis RuleBasedStateMachine over one step interpreter) + one-shot deep trees against reference Boolean algebra; object-graph fingerprints for operand immutability; atheris in the thorough tier",
      "Exploration: histories of build steps (leaf, null, &,|,^, combine-with-null on either side, same/different-operator-then-null family enumerated, spec lists with nesting, operand reuse) are generated; after EVERY step every pool member is re-filtered on probe documents and compared with the reference algebra (null = identity), and the structural fingerprint of every pre-existing member must be unchanged. Deep random trees (depth<=6) via DSL and via spec lists are compared one-shot.",
      TRUST, "DESIGN.md 3/C02")
 prop("C03", "PBT: document-guided path generation against a reference frontier walk; differential over 5 entry points",
@@ -34,7 +34,7 @@ prop("C07", "PBT/fuzzing for crash-freedom: hostile documents x full callable se
      "Exploration: schemas over all callables (well-typed arguments) with and without casts on hostile documents; Schema.validate and Rule.test must return result objects; any escaping exception is a violation bucketed by root cause so the search continues behind known ones.",
      TRUST, "DESIGN.md 3/C07")
 
-prop("C08", "PBT over generated call histories (model-based): before/after snapshots, object-graph fingerprints, harness-side attribute-write tracer, differential against freshly built objects",
+prop("C08", "PBT over generated call histories (model-based: program-as-data and a Hypothesis RuleBasedStateMachine over one step interpreter): before/after snapshots, object-graph fingerprints, harness-side attribute-write tracer, differential against freshly built objects",
      "Exploration: histories of filter/get/test/validate calls sharing schema, rule, condition, path and document objects; after every call the documents are type-exactly unchanged and un-aliased, every shared object's fingerprint is unchanged, the write tracer saw no attribute write to a pre-existing object, and the result equals the same call on fresh objects and the first time it was made. Thread schedules are covered by the no-shared-write argument; a threaded stress run in the thorough tier is corroboration only.",
      TRUST + " Interleavings are sequential; schedules are not enumerated.", "DESIGN.md 3/C08")
 prop("C09", "PBT, exhaustive over spec-expressible leaf shapes x generated spellings; differential spec-built vs DSL-built (== and behaviour) plus reference model",
@@ -65,7 +65,7 @@ prop("C16", "PBT over parse histories of one spec structure (repeated parses thr
 prop("C17", "PBT, metamorphic (path argument vs resolved literal) plus reference model; document-guided cross-references; spec and escaped spellings",
      "Exploration: rules whose conditions have data-path arguments in every argument position (with modifiers, absent references, via DataPath objects and via specs) must give the same verdict and failures as the same rule with the argument replaced by the literal the reference resolves, and both must equal the reference rule test; escaped '\\path' literals are compared literally.",
      TRUST, "DESIGN.md 3/C17")
-prop("C18", "PBT over generated add_schema/validate histories (model-based): expected rule lists built with the library's own '/', reference validation, fingerprints of T, metamorphic T-at-root cross-check",
+prop("C18", "PBT over generated add_schema/validate histories (model-based: program-as-data and a Hypothesis RuleBasedStateMachine over one step interpreter): expected rule lists built from part objects, reference validation, fingerprints of T, metamorphic T-at-root cross-check",
      "Exploration: histories adding the same T under different roots into the same and into different S, with validations in between; after every step S.rules equals the model's expected list, S validates like the reference over the expected rule terms, and every T is unchanged (fingerprint, equality with a fresh T, behaviour).",
      TRUST, "DESIGN.md 3/C18")
 prop("C19", "fault injection from an enumerated catalogue of definite spec errors (must be rejected with a spec error) + structural mutation fuzzing of well-formed specs (must be accepted or cleanly rejected); exception-type oracle bucketed by frame",
@@ -103,9 +103,9 @@ m = {
         "add_only": True,
     },
     "engines": [{"name": "vf", "path": "/verif/vf", "serves_properties": BUILT,
-                 "kind_free_text": "Hypothesis-driven generated search (byte-tape decoders, sharded over processes, collect-then-shrink, signature-bucketed violations) against a reference model / round-trip / metamorphic oracles; atheris coverage-guided fuzzing over the same decoders in thorough tiers"}],
+                 "kind_free_text": "Hypothesis-driven generated search (byte-tape decoders, sharded over processes, collect-then-shrink on the tape, signature-bucketed violations; RuleBasedStateMachine drivers for the history properties) against a reference model / round-trip / differential / metamorphic oracles; atheris (libFuzzer) coverage-guided fuzzing over the same decoders and bodies in every thorough tier"}],
     "checks": checks,
-    "notes": "See DESIGN.md. known_findings.txt lists fixed defects ('fixed:' entries suppress nothing) and recorded findings ('known:').",
+    "notes": "See DESIGN.md (section 9 = as built). known_findings.txt lists the 34 repaired defects ('fixed:' entries suppress nothing); there are no 'known:' entries. seeded/ holds ~130 changes that break a property (all reported by the quick checks), benign/ holds ~38 property-preserving changes (no check raises an alarm); tools/seeded.py, tools/benign.py, tools/revert_check.py re-run them.",
     "not_applicable": [{"property_id": id, "reason": "check under construction in this session (generated-search design in DESIGN.md section 3); claimed as soon as it is built and quiet on the unchanged tree"} for id in ALL if id not in BUILT],
 }
 json.dump(m, open(os.path.join(HERE, "MANIFEST.json"), "w"), indent=1)
